@@ -441,7 +441,7 @@ META = {
         "an array and an inline image (dictionary and ID/EI framing), cut before and after every white-space byte into 2 streams (both seams) and at every pair of "
         "such bytes into 3 streams. "
         "Family misc: 4 caller CTMs x 3 forms without /Matrix or with an identity one that leave a cm (or an unbalanced q cm) behind, one nested, text shown after Do; "
-        "all 8 direct/indirect patterns of a three-font /Font dictionary on the page and in a form (one caching resource manager); a vertical-writing font "
+        "Tm and cm with a name or a string at every operand position, one at a time; all 8 direct/indirect patterns of a three-font /Font dictionary on the page and in a form (one caching resource manager); a vertical-writing font "
         "(Type0, Identity-V, DW2/W2): 2 CTMs x Tc {0,-2} x all ordered pairs of 5 show operators (Tj, TJ with numbers between / before strings, ', \"), glyph origins judged. "
         "Family leftover: every list of 1..2 operands from {30, 40, (A), /F2} left unconsumed at the end of a page (or of a form XObject), followed -- "
         "directly, after an unrelated page, or after the form -- by a page with one of 12 operators lacking operands (inside and outside BT, plus a bare cm) "
@@ -878,6 +878,17 @@ def misc_pages(st):
             evs = ((cm,) if cm else ()) + (("Do", "/" + name),) + MISC_AFTER
             pages.append((gfx.program(evs), {"Font": page_fonts, "XObject": dict(xr)}))
             models.append((evs, {"fonts": {"F1": "A", "F2": "B"}, "xobjects": ["FmC", "FmQ", "FmX"]}))
+    # Tm / cm with one operand of the wrong type at every position, one at a time: nothing changes
+    for pos in range(6):
+        for bad in ("/x", b"s"):
+            tm = (2, 0, 0, 2, 40, 80)
+            ill = tm[:pos] + (bad,) + tm[pos + 1:]
+            for evs in (
+                (("BT",), ("Tf", "/F1", 8), ("Td", 7, -5), ("Tj", b"A"), ("Tm",) + ill, ("Tj", b"B"), ("T*",), ("Tj", b"C"), ("ET",)),
+                (("cm", 1, 0, 0, 1, 16, 24), ("cm",) + ill, ("BT",), ("Tf", "/F1", 8), ("Tj", b"A B"), ("ET",)),
+            ):
+                pages.append((gfx.program(evs), {"Font": page_fonts}))
+                models.append((evs, {"fonts": {"F1": "A", "F2": "B"}, "xobjects": []}))
     for pattern in itertools.product((0, 1), repeat=3):  # 1 = direct dictionary, 0 = indirect reference
         fonts = {n: (font_dict(k, wset) if direct else fref[k]) for (n, k), direct in zip((("F1", "A"), ("F2", "B"), ("F3", "C")), pattern)}
         evs = FORMS["FmR"]["events"]
@@ -900,7 +911,9 @@ def misc_pages(st):
         bad = diff(exp, obs) if exc is None else ["exception"]
         st.case(None, nontrivial=bool(exp), outcome=h64(repr(obs)))
         if bad:
-            sig = "C05/" + ("form-without-matrix-ctm" if any(e[0] == "Do" and e[1] != "/FmR" for e in evs) else "mixed-direct-indirect-fonts") + ":" + ",".join(sorted(bad))
+            kind = ("form-without-matrix-ctm" if any(e[0] == "Do" and e[1] != "/FmR" for e in evs) else
+                    "illtyped-matrix-operand" if any(e[0] in ("Tm", "cm") and not gfx.well_typed(e, "nnnnnn") for e in evs) else "mixed-direct-indirect-fonts")
+            sig = "C05/" + kind + ":" + ",".join(sorted(bad))
             st.violation(sig, {"family": "misc", "events": list(evs), "pdf": data if st.viol_counts[sig] < 1 else b""},
                          gfx.fl(exp), obs, "Matrix-less form / mixed font resources: " + ",".join(sorted(bad)))
     if len(out) != len(pages):
